@@ -213,7 +213,7 @@ class Ctx:
         if os.environ.get("VERIF_DEBUG"):
             with open(os.path.join(VERIF, "build", "violations-%s.json" % self.prop), "w") as f:
                 json.dump(self.violations, f, default=str)
-        rdir = os.path.join(VERIF, "replays", self.prop)
+        rdir = os.path.join(os.environ.get("VERIF_REPLAY_DIR", os.path.join(VERIF, "replays")), self.prop)
         nrep = 0
         for key, vs in groups.items():
             v = vs[0]
@@ -255,8 +255,9 @@ class Ctx:
             "wall_s": round(wall, 2),
             "violations": len(self.violations),
         }
-        os.makedirs(os.path.join(VERIF, "evidence"), exist_ok=True)
-        evp = os.path.join(VERIF, "evidence", self.prop + ".json")
+        evdir = os.environ.get("VERIF_EVIDENCE_DIR", os.path.join(VERIF, "evidence"))
+        os.makedirs(evdir, exist_ok=True)
+        evp = os.path.join(evdir, self.prop + ".json")
         with open(evp, "w") as f:
             json.dump(ev, f, indent=1, default=str)
         validate_evidence(evp)
